@@ -308,6 +308,7 @@ def wrapped_always_enabled(o):
     history: an L event of a decorated function's code in a thread that is not enabled is a violation."""
     codes = o['codes']
     en, wrapped = set(), set()
+    direct = set(map(tuple, o.get('direct_segs', [])))
     for op in o['ops']:
         k = op[0]
         if k == 'E':
@@ -317,6 +318,8 @@ def wrapped_always_enabled(o):
         elif k == 'W':
             wrapped.add(op[1])
         elif k == 'L':
+            if (op[3], op[4]) in direct:
+                continue        # not run by the wrapper (e.g. the interpreter finalising an abandoned generator itself)
             if codes[op[2]]['lbl'] in wrapped and op[1] not in en:
                 return False, 'decorated function (label %d) executed line %d with the profiler off' % (codes[op[2]]['lbl'], op[5])
     return True, ''
